@@ -353,8 +353,13 @@ func xyzToFaceSiTi(p Point) (face int, si, ti uint32, level int) {
 	// due to rounding errors, uvToST(xyzToFaceUV(faceUVToXYZ(stToUV(...)))) is
 	// not idempotent. On the other hand, the center is computed exactly the same
 	// way p was originally computed (if it is indeed the center of a Cell);
-	// the comparison can be exact.
-	if p.Vector == faceSiTiToXYZ(face, si, ti).Normalize() {
+	// the comparison can be exact. It has to be exact in the sign of a zero
+	// coordinate as well, which == does not distinguish: the face centers are
+	// rebuilt with negated zeros ((-1, -0, -0) for face 3), so a vertex written
+	// as (-1, 0, 0) is not reproduced bit for bit from its cell id.
+	c := faceSiTiToXYZ(face, si, ti).Normalize()
+	if p.Vector == c && math.Signbit(p.X) == math.Signbit(c.X) &&
+		math.Signbit(p.Y) == math.Signbit(c.Y) && math.Signbit(p.Z) == math.Signbit(c.Z) {
 		return face, si, ti, level
 	}
 
